@@ -75,4 +75,17 @@ PROPS = {
         "assumptions": ["an out-of-range index panics before the vector is touched (Vec::remove / insert assert first): the model returns Panic with the state unchanged and the history continues",
                         "the theorems characterise each mutator for every structure; that the Rust methods are these functions is sampled"],
     },
+    "C09": {
+        "translators": ["t3"],
+        "count": {"quick": 40, "thorough": 400},
+        "rule": "random structures of arbitrary shape (empty models / chains / residues / conformers allowed in two thirds of the cases, ragged, duplicate ids): "
+                "the canonical walk (all counts, every flat iterator, atoms-with-hierarchy tuples, at the PDB level and for every model, chain, residue and "
+                "conformer) computed through four views of the implementation - sequential iterators, .rev() reversed, n-th accessors until None, and the "
+                "*_mut iterators / atoms_with_hierarchy_mut - and compared with the walk computed by the accessors translated from the source; the parallel "
+                "twins (counts, par_* iterators) and par_*_mut marking under thread pools of 1,2,3,4,8,16 threads x 2 repeats (1..16 x 5 thorough); "
+                "sequential *_mut and hierarchy-mut marking (each element bumped exactly once); index accessors at len, len+1, 0.  "
+                "non-trivial = structure with at least two atoms; distinct = distinct case line",
+        "assumptions": ["rayon: collect() of a parallel iterator preserves order; for_each on par_iter_mut visits each element once (its documented contract) - exercised under the listed pools, not proved",
+                        "the raw-pointer hierarchy tuples of the *_mut variants are read through their public accessors only; aliasing/memory safety is outside an executable Gallina model"],
+    },
 }
